@@ -152,7 +152,7 @@ theorem stmt_skel_compileLabeledWhileStatement : Gen.skel_compileLabeledWhileSta
 theorem stmt_skel_compileLabeledDoWhileStatement : Gen.skel_compileLabeledDoWhileStatement =
     "if(needResult){c.emit(clearResult);}c.compileStatement(v.Body,needResult);c.emitExpr(c.compileExpression(v.Test),true);c.emit(jeqP(start-len(c.p.code)));" := rfl
 theorem stmt_skel_compileLabeledForStatement : Gen.skel_compileLabeledForStatement =
-    "typeswitch{case(*ast.ForLoopInitializerExpression){c.compileExpression(init.Expression).emitGetter(false);}}if(needResult){c.emit(clearResult);}set testConst=false;if(v.Test!=nil){if(expr.constant()){if(ex==nil){if(r.ToBoolean()){set testConst=true;}else{c.enterDummyMode();c.compileStatement(v.Body,false);if(v.Update!=nil){c.compileExpression(v.Update).emitGetter(false);}leave();goto end;}}else{c.emitThrow(ex.val);goto end;}}else{expr.emitGetter(true);c.emit(nil);}}if(needResult){c.emit(clearResult);}c.compileStatement(v.Body,needResult);if(v.Update!=nil){c.compileExpression(v.Update).emitGetter(false);}c.emit(jump(start-len(c.p.code)));if(v.Test!=nil){if(!testConst){patch jneP(len(c.p.code)-j);}}end:" := rfl
+    "typeswitch{case(*ast.ForLoopInitializerVarDeclList){range(init.List){c.compileVarBinding(expr);}}case(*ast.ForLoopInitializerExpression){c.compileExpression(init.Expression).emitGetter(false);}}if(needResult){c.emit(clearResult);}set testConst=false;if(v.Test!=nil){if(expr.constant()){if(ex==nil){if(r.ToBoolean()){set testConst=true;}else{c.enterDummyMode();c.compileStatement(v.Body,false);if(v.Update!=nil){c.compileExpression(v.Update).emitGetter(false);}leave();goto end;}}else{c.emitThrow(ex.val);goto end;}}else{expr.emitGetter(true);c.emit(nil);}}if(needResult){c.emit(clearResult);}c.compileStatement(v.Body,needResult);if(v.Update!=nil){c.compileExpression(v.Update).emitGetter(false);}c.emit(jump(start-len(c.p.code)));if(v.Test!=nil){if(!testConst){patch jneP(len(c.p.code)-j);}}end:" := rfl
 theorem stmt_skel_compileReturnStatement : Gen.skel_compileReturnStatement =
     "if(v.Argument!=nil){c.emitExpr(c.compileExpression(v.Argument),true);}else{c.emit(loadUndef);}c.emit(ret);" := rfl
 theorem stmt_skel_compileThrowStatement : Gen.skel_compileThrowStatement =
